@@ -382,7 +382,8 @@ def gen_operator_spec(rng, version=None, rv=None, force_n=None, perm=False):
         bits.add(rv.getrandbits(n) if n else 0, n)
 
     kind = rng.choice(['bitmap', 'bitmap', 'bitmap', 'plain-ops', 'plain-ops', 'bitmap-blocks', 'bitmap-blocks',
-                       'seq-ops', 'wide', 'bitmap+203', 'bitmap+204', 'bitmap+dbm', 'bitmap+dbm', 'plain-ops+221'])
+                       'seq-ops', 'wide', 'bitmap+203', 'bitmap+204', 'bitmap+dbm', 'bitmap+dbm', 'plain-ops+221',
+                       'bitmap+qar', 'bitmap+qam'])
     # feature interactions of the bitmap programs: '+203' - new reference values (203YYY) defined for an element
     # the bitmap refers to, cancelled before the bitmap operator or still in force at the marker operators;
     # '+204' - an associated field (204YYY) in force at the marker operators; '+dbm' - the bits of the bitmap
@@ -515,8 +516,13 @@ def gen_operator_spec(rng, version=None, rv=None, force_n=None, perm=False):
             ids += [204000 + rng.randint(1, 8), 31021]
             rnd(b[31021][4])
         op = rng.choice([222000, 223000, 223000, 224000, 225000, 232000])
+        if variant in ('qar', 'qam'):
+            # quality information (222000) whose 'follows' status is data dependent: 'qar' - class 33 values
+            # under a delayed replication (0..z times), an ordinary element, then a class 33 value again;
+            # 'qam' - the bitmap re-used by marker operators (223000 237000 223255..), then a class 33 value
+            op = 222000
         ids.append(op)
-        reuse = rng.random() < 0.25
+        reuse = rng.random() < 0.25 or variant == 'qam'
         if reuse:
             ids.append(236000)
         nb = rng.randint(1, k)
@@ -548,7 +554,19 @@ def gen_operator_spec(rng, version=None, rv=None, force_n=None, perm=False):
             ids.append(8023)
         if op == 225000 and 8024 in b:
             ids.append(8024)
-        if op == 222000:
+        if op == 222000 and variant == 'qar' and 31001 in b and z >= 1:
+            q = rng.choice([q for q in (33007, 33002, 33003) if q in b])
+            n = rv.choice([0, 0, 1, 2, 3]) if force_n is None else force_n
+            n = min(n, z)
+            ids += [101000, 31001, q, rng.choice(nums), q]
+            bits.add(n, b[31001][4])
+            has_factor = True
+        elif op == 222000 and variant == 'qam':
+            q = rng.choice([q for q in (33007, 33002, 33003) if q in b])
+            ids += [q] * z
+            op2 = rng.choice([223000, 232000])
+            ids += [op2, 237000] + [op2 + 255] * z + [q]
+        elif op == 222000:
             if rng.random() < 0.5 and 1031 in b:
                 ids.append(1031)
             q = rng.choice([q for q in (33007, 33002, 33003) if q in b])
